@@ -32,24 +32,26 @@ pub enum Node {
     Number(i64),
 }
 
-fn gcd(expr1: i64, expr2: i64) -> i64 {
+fn gcd(expr1: i64, expr2: i64) -> Option<i64> {
     let mut a = expr1;
     let mut b = expr2;
     while b != 0 {
         #[cfg(feature = "verif_hooks")]
         crate::verif_hooks::tick_loop();
-        let remainder = a % b;
-        a = expr2;
+        let remainder = a.wrapping_rem(b);
+        a = b;
         b = remainder;
     }
-    a.abs()
+    a.checked_abs()
 }
 
-fn lcm(expr1: i64, expr2: i64) -> i64 {
+fn lcm(expr1: i64, expr2: i64) -> Option<i64> {
     if expr1 == 0 || expr2 == 0 {
-        return 0;
+        return Some(0);
     }
-    (expr1 / gcd(expr1, expr2) * expr2).abs()
+    (expr1 / gcd(expr1, expr2)?)
+        .checked_mul(expr2)?
+        .checked_abs()
 }
 
 pub fn eval(expr: Node) -> Result<i64, Box<dyn error::Error>> {
@@ -155,38 +157,22 @@ pub fn eval(expr: Node) -> Result<i64, Box<dyn error::Error>> {
         }
         Gcd(args) => {
             // Ok(gcd(eval(*expr1)?, eval(*expr2)?))
-            if args.len() > 1 {
-                let mut result: Option<i64> = None;
-                for arg in <Vec<Node> as Clone>::clone(&args).into_iter() {
-                    let right_art = eval(arg)?;
-                    result = result
-                        .map(|left_arg| Some(gcd(left_arg, right_art)))
-                        .unwrap_or(Some(right_art));
-                }
-                Ok(result.unwrap())
-            } else {
-                match args.first() {
-                    Some(arg) => Ok(eval((*arg).clone())?),
-                    None => Ok(0),
-                }
+            // gcd(0, x) = |x|, so folding from 0 also normalises the sign of a single argument
+            let mut result: i64 = 0;
+            for arg in <Vec<Node> as Clone>::clone(&args).into_iter() {
+                let right_art = eval(arg)?;
+                result = gcd(result, right_art).ok_or("Integer overflow")?;
             }
+            Ok(result)
         }
         Lcm(args) => {
-            if args.len() > 1 {
-                let mut result: Option<i64> = None;
-                for arg in <Vec<Node> as Clone>::clone(&args).into_iter() {
-                    let right_art = eval(arg)?;
-                    result = result
-                        .map(|left_arg| Some(lcm(left_arg, right_art)))
-                        .unwrap_or(Some(right_art));
-                }
-                Ok(result.unwrap())
-            } else {
-                match args.first() {
-                    Some(arg) => Ok(eval((*arg).clone())?),
-                    None => Ok(0),
-                }
+            // lcm(1, x) = |x|
+            let mut result: i64 = 1;
+            for arg in <Vec<Node> as Clone>::clone(&args).into_iter() {
+                let right_art = eval(arg)?;
+                result = lcm(result, right_art).ok_or("Integer overflow")?;
             }
+            Ok(result)
         }
         Min(args) => {
             if args.len() > 1 {
